@@ -2,6 +2,7 @@ import Asts.Driver.Ordinals
 import Asts.Driver.Reconcile
 import Asts.Driver.Sync
 import Asts.Driver.World
+import Asts.Driver.WorldEdits
 import Asts.Driver.Events
 import Asts.Driver.Upgrade
 import Asts.Driver.PodControl
@@ -23,6 +24,7 @@ def dispatch (engine : String) (line : String) : String :=
     | "sync" => stepSync cas obs
     | "syncmig" => stepSync cas obs
     | "world" => stepWorld cas obs
+    | "worldedit" => stepWorldEdit cas obs
     | "events" => stepEvents cas obs
     | "events-pinned" => stepEventsPinned cas obs
     | "upgrade" => stepUpgrade cas obs
